@@ -11,15 +11,26 @@
 (***************************************************************************)
 EXTENDS Naturals, Integers, FiniteSets
 
-CONSTANTS Window,   \* receive window
-          Total     \* amount the sending application wants to send
+CONSTANTS
+  \* @type: Int;
+  Window,   \* receive window
+  \* @type: Int;
+  Total     \* amount the sending application wants to send
 
-VARIABLES adv,    \* highest limit the receiver has put on the wire
-          known,  \* highest limit that has arrived at the sender
-          sent,   \* highest offset sent
-          rcvd,   \* highest offset received
-          read,   \* consumed by the receiving application
-          net     \* in flight: <<"data", off>> (all bytes below off) or <<"max", v>>
+\* (the @type comments are for Apalache, which proves CreditInd!IndInv inductive for every Window and Total)
+VARIABLES
+  \* @type: Int;
+  adv,    \* highest limit the receiver has put on the wire
+  \* @type: Int;
+  known,  \* highest limit that has arrived at the sender
+  \* @type: Int;
+  sent,   \* highest offset sent
+  \* @type: Int;
+  rcvd,   \* highest offset received
+  \* @type: Int;
+  read,   \* consumed by the receiving application
+  \* @type: Set(<<Str, Int>>);
+  net     \* in flight: <<"data", off>> (all bytes below off) or <<"max", v>>
 
 cvars == <<adv, known, sent, rcvd, read, net>>
 
